@@ -1,4 +1,5 @@
 import H4.Codecs
+import H4.NdgAttrs
 import H4.Gen.Fn.Dfrle
 import H4.Driver.Util
 namespace H4.Driver
@@ -82,7 +83,8 @@ def showDim (r : DimRec) : String :=
     `sddrd sd|dfsd <bytes>` => the dimension sizes the reader extracts | fail
     `dim dfgr|mfgr <xdim> <ydim> <nttag> <ntref> <ncomps> <il> <ctag> <cref>` => 20-byte DFTAG_ID/DFTAG_LD record
     `dim8 <xdim> <ydim> <ntref> <ctag> <cref>` => DFTAG_ID record of DFR8putrig
-    `dimrd mfgr|dfgr|dfr8 <bytes>` => the eight fields | fail -/
+    `dimrd mfgr|dfgr|dfr8 <bytes>` => the eight fields | fail
+    `ndgattrs <sdc> <desc,desc,…> <label,…> <sdl> <sdu> <sdf>` => `<name>=<bytes> …` the character attributes of hdf_read_ndgs, in SD's order -/
 def stepXapi (args : List String) : String :=
   match args with
   | ["sdd", w, nt, dims] => match parseNat nt, intList dims with
@@ -113,6 +115,14 @@ def stepXapi (args : List String) : String :=
       let buf := img ++ List.replicate (xdim * ydim - img.length) 0xA5
       toHex (imageArea w h xdim (spreadRows w h xdim buf))
     | _, _, _, _, _ => "bad-op"
+  | ["ndgattrs", sdc, descs, labels, sdl, sdu, sdf] =>
+    let hexList (s : String) : Option (List (List UInt8)) := if s == "-" then some [] else (s.splitOn ",").mapM parseHex
+    match parseHex sdc, hexList descs, hexList labels, parseHex sdl, parseHex sdu, parseHex sdf with
+    | some sdc, some descs, some labels, some sdl, some sdu, some sdf =>
+      let as := H4.NdgAttrs.ndgCharAttrs ⟨sdc, descs, labels, sdl, sdu, sdf⟩
+      if as.isEmpty then "-" else
+        " ".intercalate (as.map fun a => String.ofList (a.name.map Char.ofNat) ++ "=" ++ toHex a.value)
+    | _, _, _, _, _, _ => "bad-op"
   | ["dimrd", rd, d] => match parseHex d with
     | some bs =>
       let r := if rd == "dfr8" then decode_dfr8 bs else if rd == "dfgr" then decode_dfgr bs else decode_mfgr bs
